@@ -23,15 +23,40 @@ CONCRETE = os.environ.get("VF_REPLAY") == "1"     # concrete replay: harnesses m
 HERE = os.path.dirname(os.path.dirname(os.path.abspath(__file__)))
 
 
+_RAISED = []
+
+
 class HarnessError(Exception):
     """The machinery (a stub, a model) was asked for something it does not implement.
 
-    Never a property violation: the runner maps it to exit code 3.
+    Never a property violation: the runner maps it to exit code 3.  Every instance is also recorded, so that one which
+    the code under analysis swallows in a broad ``except Exception`` still surfaces at the verdict point ``V``.
     """
+
+    def __init__(self, *a):
+        super().__init__(*a)
+        _RAISED.append((_path_token(), str(a[0]) if a else ""))
+
+
+def _path_token():
+    """identity of the execution path being explored (the engine builds one StateSpace per path); None when concrete"""
+    try:
+        from crosshair.statespace import optional_context_statespace
+        return optional_context_statespace()
+    except Exception:  # noqa: BLE001
+        return None
 
 
 def V(ok: Any) -> bool:
     """Verdict point of a harness.  Twin mode forces the postcondition false *here*."""
+    if _RAISED:
+        here = _path_token()
+        mine = [m for tok, m in _RAISED if tok is here]
+        del _RAISED[:]
+        if mine:
+            err = HarnessError("raised earlier on this path and swallowed by the code under analysis: " + mine[0])
+            del _RAISED[:]
+            raise err
     if TWIN:
         return False
     return True if ok else False
